@@ -11,7 +11,7 @@ use super::ast::*;
 use crate::ir::generic::ColumnSort;
 use crate::ir::pl::Ident;
 use crate::ir::rq::{CId, ExprKind, RelationColumn, RqFold, TId};
-use crate::sql::pq::context::{ColumnDecl, RIId};
+use crate::sql::pq::context::{ColumnDecl, RIId, SqlTableDecl};
 use crate::sql::Context;
 use crate::Result;
 
@@ -443,9 +443,21 @@ impl PqMapper<RelationExpr, RelationExpr, (), ()> for SortingInference<'_> {
 /// Makes sure all relation instances have assigned names. Tries to infer from table references.
 fn assign_names(query: SqlQuery, ctx: &mut Context) -> SqlQuery {
     // generate CTE names, make sure they don't clash
+    // (tables of the database cannot be renamed: their names are taken from the start)
+    let cte_ids: HashSet<_> = query.ctes.iter().map(|cte| cte.tid).collect();
+    let is_db_table = |d: &SqlTableDecl| d.name.is_some() && !cte_ids.contains(&d.id);
+
+    let decls = ctx.anchor.table_decls.values();
+    let mut names: HashSet<_> = decls
+        .filter(|d| is_db_table(d))
+        .filter_map(|d| d.name.clone())
+        .collect();
+
     let decls = ctx.anchor.table_decls.values_mut();
-    let mut names = HashSet::new();
     for decl in decls.sorted_by_key(|d| d.id.get()) {
+        if is_db_table(decl) {
+            continue;
+        }
         while decl.name.is_none() || names.contains(decl.name.as_ref().unwrap()) {
             decl.name = Some(Ident::from_name(ctx.anchor.table_name.gen()));
         }
